@@ -13,6 +13,10 @@ LEVEL_NOTE = (
 )
 
 
+class Interrupted(Exception):
+    """the class's own emptiness check did not complete (a time limit, an interruption of the caller)"""
+
+
 class K(CombinatorialClass):
     """A class identified by an integer; `empty` is its own answer to is_empty. No compression."""
 
@@ -20,8 +24,12 @@ class K(CombinatorialClass):
         self.ident, self.empty = ident, empty
         self.calls = 0
 
+    interrupt = False
+
     def is_empty(self):
         self.calls += 1
+        if self.interrupt:
+            raise Interrupted
         return self.empty
 
     def __eq__(self, other):
@@ -104,6 +112,7 @@ def run_history(res, cls, empties, ops):
     hist = {"compress": cls.__name__, "empties": sorted(empties), "ops": ops}
     first_label = {}
     order = []
+    answered = set()  # classes whose emptiness the database has been told or has worked out
     for op in ops:
         kind = op[0]
         if kind == "L":
@@ -172,6 +181,8 @@ def run_history(res, cls, empties, ops):
             outs.append(str(r))
             if x in first_label and r is not (x in empties):
                 res.fail("emptiness-wrong", hist, f"is_empty(class {x}) -> {r}, class says {x in empties}")
+            if isinstance(r, bool):
+                answered.add(x)
         elif kind == "EL":  # is_empty by (class,label) as the searcher calls it: same model op
             x = op[1]
             if x not in first_label:
@@ -182,6 +193,22 @@ def run_history(res, cls, empties, ops):
             outs.append(str(r))
             if r is not (x in empties):
                 res.fail("emptiness-wrong", hist, f"is_empty(class {x}, label) -> {r}, class says {x in empties}")
+            answered.add(x)
+        elif kind == "EX":  # an emptiness query whose check of the class is interrupted: nothing may be concluded from it
+            x = op[1]
+            if x not in first_label:
+                continue
+            c = cls(x, x in empties)
+            c.interrupt = True
+            r = out_of((lambda: db.is_empty(c, first_label[x])) if op[2] else (lambda: db.is_empty(c)))
+            if x in answered:
+                # answered from the cache, the class is not asked: an ordinary query for the model
+                lines.append(f"E {x}")
+                outs.append(str(r))
+                if r is not (x in empties):
+                    res.fail("emptiness-wrong", hist, f"is_empty(class {x}) -> {r} from the cache, class says {x in empties}")
+            elif r != "EXC:Interrupted":
+                res.fail("interrupted-emptiness-check-answered", hist, f"is_empty(class {x}) -> {r} although the class's check did not complete")
         elif kind == "S":
             x = op[1]
             b = x in empties  # truthful
@@ -191,6 +218,7 @@ def run_history(res, cls, empties, ops):
             if x not in first_label:
                 first_label[x] = len(order)
                 order.append(x)
+            answered.add(x)
     return lines, outs
 
 
@@ -199,9 +227,11 @@ def rand_case(rnd):
     empties = {x for x in range(n) if rnd.random() < 0.4}
     ops = []
     for _ in range(rnd.randint(1, 40)):
-        k = rnd.choice(["L", "L", "L", "A", "G", "CC", "CL", "E", "EL", "S"])
+        k = rnd.choice(["L", "L", "L", "A", "G", "CC", "CL", "E", "EL", "S", "EX"])
         if k in ("G", "CL"):
             ops.append((k, rnd.randint(-3, n + 3)))
+        elif k == "EX":
+            ops.append((k, rnd.randrange(n), rnd.random() < 0.5))
         else:
             ops.append((k, rnd.randrange(n)))
     return empties, ops
